@@ -9,6 +9,9 @@
 //! printed as KNOWN-FINDING lines), 1 violation (VIOLATION line), 2 harness error.
 
 mod arena;
+mod corrupt;
+mod crash;
+mod diff;
 mod exec;
 mod gen;
 mod hook;
